@@ -190,10 +190,22 @@ class Gen:
         cuts = sorted(rng.sample(range(1, total_bits), nentries - 1)) if nentries > 1 else []
         parts = [b - a for a, b in zip([0] + cuts, cuts + [total_bits])]
         free = W - total_bits
+        style = rng.choice(['shuffle', 'reverse', 'rotate', 'sorted', 'tile-middle-shuffled', 'tile-shuffled', 'adjacent-pair-then-more',
+                            'one-gap'])
         # distribute gaps
         gaps = [0] * (nentries + 1)
-        for _ in range(free):
-            gaps[rng.randrange(nentries + 1)] += 1
+        if style in ('tile-middle-shuffled', 'tile-shuffled'):
+            gaps[0] = rng.randint(0, free)          # the entries tile one contiguous span
+        elif style == 'adjacent-pair-then-more' and nentries >= 3:
+            # entries 0 and 1 touch; the rest is spread
+            for _ in range(free):
+                gaps[rng.choice([0] + list(range(2, nentries + 1)))] += 1
+        elif style == 'one-gap' and nentries >= 2:
+            gaps[0] = rng.randint(0, free)
+            gaps[rng.randint(1, nentries - 1)] = rng.randint(0, free - gaps[0])
+        else:
+            for _ in range(free):
+                gaps[rng.randrange(nentries + 1)] += 1
         pos = 0
         rs = []
         order = list(range(nentries))
@@ -202,14 +214,23 @@ class Gen:
             pos += gaps[i]
             placed.append((pos, parts[i]))
             pos += parts[i]
-        style = rng.choice(['shuffle', 'reverse', 'rotate', 'sorted'])
-        if style == 'shuffle':
+        if style in ('shuffle', 'tile-shuffled'):
             rng.shuffle(placed)
         elif style == 'reverse':
             placed.reverse()
         elif style == 'rotate':
             r = rng.randrange(nentries)
             placed = placed[r:] + placed[:r]
+        elif style in ('tile-middle-shuffled', 'one-gap') and nentries >= 3:
+            mid = placed[1:-1]
+            rng.shuffle(mid)
+            if nentries >= 4 and mid == placed[1:-1]:
+                mid.reverse()
+            placed = [placed[0]] + mid + [placed[-1]]
+        elif style == 'adjacent-pair-then-more' and nentries >= 3:
+            rest = placed[2:]
+            rng.shuffle(rest)
+            placed = rng.choice([placed[:2] + rest, rest[:1] + placed[:2] + rest[1:]])
         # widths must follow the (now permuted) order: they already do (each entry carries its own width)
         return placed
 
@@ -361,6 +382,21 @@ class Gen:
             two(W, [F('a', {'k': 'bool'}, [('s', 0)], count=h), F('b', u(W - h), [('r', h, W - 1)])], 'bool-array')
             two(W, [F('a', {'k': 'bool'}, [('s', 0)], count=h), F('b', u(W - h + 1), [('r', h - 1, W - 1)])], 'bool-array-overlaps-field')
             two(W, [F('a', u(h), [('r', 0, h - 1)]), F('b', u(W - h), [('r', h, W - 1)], acc='')], 'field-without-access')
+        # default values at the boundaries of the base type, every form and syntax (C06)
+        k = 0
+        for W in ([8, 64, 128, 7, 24, 65, 100] if self.tier == 'quick' else [8, 16, 32, 64, 128, 1, 7, 9, 24, 33, 63, 65, 100, 127]):
+            for value in sorted({0, 1, (1 << W) - 1, max(0, (1 << W) - 2), 1 << (W - 1), rng.getrandbits(W)}):
+                k += 1
+                form = ['lit', 'lit-hex', 'const'][k % 3]
+                fields = [F('lo', {'k': 'bool'}, [('s', 0)])] + ([F('hi', {'k': 'bool'}, [('s', W - 1)], acc='r')] if W > 1 else [])
+                d = {'kind': 'bitfield', 'name': self.name('S'), 'base': W, 'fields': fields}
+                if form == 'const':
+                    d['default'] = {'form': 'const', 'name': 'DEF_%s' % d['name'], 'value': value}
+                else:
+                    d['default'] = {'form': 'lit', 'value': value, 'text': hex(value) if form == 'lit-hex' else str(value)}
+                if k % 4 == 0:
+                    d['legacy'] = True
+                self.add(d, 'F4c', 'accept', ['default-boundary', form, 'W=%d' % W])
         # debug on things that must not compile with it (C19)
         self.add({'kind': 'bitfield', 'name': self.name('S'), 'base': 8, 'debug': True,
                   'fields': [F('a', u(4), [('r', 0, 3)], acc='w'), F('b', u(4), [('r', 4, 7)])]}, 'F4d', 'reject', ['debug-write-only'])
